@@ -107,6 +107,9 @@ func runCheck(verifRoot, repoRoot, id, tier string, seed int64, only string, noR
 		fmt.Fprintln(os.Stderr, "config:", err)
 		return 2
 	}
+	if len(cfg.Parts) > 0 {
+		return runParts(verifRoot, repoRoot, id, cfg, tier, only, noReplay, verbose)
+	}
 	if tier == "thorough" && cfg.QueryTimeoutMs < 60000 {
 		cfg.QueryTimeoutMs = 60000
 	}
@@ -185,7 +188,7 @@ func runCheck(verifRoot, repoRoot, id, tier string, seed int64, only string, noR
 				knownPrinted[k] = true
 				for _, kf := range e.known {
 					if kf.ID == k {
-						fmt.Printf("KNOWN-FINDING: property=%s %s: %s\n", id, kf.ID, kf.What)
+						fmt.Printf("KNOWN-FINDING: property=%s %s: %s\n", cfg.Property, kf.ID, kf.What)
 					}
 				}
 			}
@@ -218,14 +221,14 @@ func runCheck(verifRoot, repoRoot, id, tier string, seed int64, only string, noR
 				}
 				writeJSON(path, rf)
 				if noReplay {
-					fmt.Printf("VIOLATION property=%s replay=%s (assert %s, %d paths; native replay skipped)\n", id, path, aid, len(vs))
+					fmt.Printf("VIOLATION property=%s replay=%s (assert %s, %d paths; native replay skipped)\n", cfg.Property, path, aid, len(vs))
 					exit = 1
 					confirmed = true
 					break
 				}
 				ok, out := e.nativeReplay(path, r.Entry, v)
 				if ok {
-					fmt.Printf("VIOLATION property=%s replay=%s\n", id, path)
+					fmt.Printf("VIOLATION property=%s replay=%s\n", cfg.Property, path)
 					fmt.Printf("  assertion %s fails on %d explored path(s); witness reproduced natively: %s\n", aid, len(vs), summarizeModel(v.Model))
 					exit = 1
 					confirmed = true
@@ -256,7 +259,7 @@ func runCheck(verifRoot, repoRoot, id, tier string, seed int64, only string, noR
 	}
 	if len(problems) > 0 {
 		for _, p := range problems {
-			fmt.Printf("INCONCLUSIVE property=%s %s\n", id, p)
+			fmt.Printf("INCONCLUSIVE property=%s %s\n", cfg.Property, p)
 		}
 		return 2
 	}
@@ -423,6 +426,7 @@ func replayFile(verifRoot, repoRoot, path string) int {
 	}
 	var rf struct {
 		Property string      `json:"property"`
+		Check    string      `json:"check"`
 		Entry    string      `json:"entry"`
 		Assert   string      `json:"assert"`
 		Kind     string      `json:"kind"`
@@ -432,7 +436,11 @@ func replayFile(verifRoot, repoRoot, path string) int {
 		fmt.Fprintln(os.Stderr, err)
 		return 2
 	}
-	cfg, err := loadCfg(verifRoot, rf.Property)
+	cfgName := rf.Property
+	if rf.Check != "" {
+		cfgName = rf.Check
+	}
+	cfg, err := loadCfg(verifRoot, cfgName)
 	if err != nil {
 		fmt.Fprintln(os.Stderr, err)
 		return 2
@@ -660,4 +668,145 @@ func (e *Engine) validateSamples(results []*EntryResult) (int, []string) {
 		bad = append(bad, "native sample replay produced no result: "+firstLines(string(out), 15))
 	}
 	return validated, bad
+}
+
+// ---------- checks made of several parts ----------
+
+// runParts runs every part config as a child process (its own package load and
+// solver pool), forwards its output, and merges the part evidence files into the
+// evidence file of the property. Exit: 1 if any part reports a violation, else 2 if
+// any part is inconclusive, else 0.
+func runParts(verifRoot, repoRoot, id string, cfg *CheckCfg, tier, only string, noReplay, verbose bool) int {
+	t0 := time.Now()
+	self, err := os.Executable()
+	if err != nil {
+		fmt.Fprintln(os.Stderr, err)
+		return 2
+	}
+	tmp := filepath.Join(verifRoot, ".work", fmt.Sprintf("%s-parts-%d", id, os.Getpid()))
+	os.MkdirAll(tmp, 0o755)
+	defer os.RemoveAll(tmp)
+	exit := 0
+	var merged map[string]interface{}
+	for _, part := range cfg.Parts {
+		args := []string{"-verif", verifRoot, "-repo", repoRoot, "-evidence-dir", filepath.Join(tmp, part)}
+		if only != "" {
+			args = append(args, "-entry", only)
+		}
+		if noReplay {
+			args = append(args, "-no-native-replay")
+		}
+		if verbose {
+			args = append(args, "-v")
+		}
+		if solverOverride != "" {
+			args = append(args, "-solver", solverOverride)
+		}
+		args = append(args, part, tier)
+		cmd := exec.Command(self, args...)
+		cmd.Stdout, cmd.Stderr = os.Stdout, os.Stderr
+		rc := 0
+		if err := cmd.Run(); err != nil {
+			if ee, ok := err.(*exec.ExitError); ok {
+				rc = ee.ExitCode()
+			} else {
+				rc = 2
+			}
+		}
+		if rc == 1 {
+			exit = 1
+		} else if rc != 0 && exit == 0 {
+			exit = 2
+		}
+		pcfg, _ := loadCfg(verifRoot, part)
+		prop := id
+		if pcfg != nil {
+			prop = pcfg.Property
+		}
+		b, err := os.ReadFile(filepath.Join(tmp, part, prop+".json"))
+		if err != nil {
+			if exit == 0 {
+				exit = 2
+			}
+			continue
+		}
+		var ev map[string]interface{}
+		if json.Unmarshal(b, &ev) != nil {
+			continue
+		}
+		if merged == nil {
+			merged = ev
+			continue
+		}
+		mergeEvidence(merged, ev)
+	}
+	if merged != nil {
+		merged["property_id"] = id
+		merged["wall_s"] = time.Since(t0).Seconds()
+		dir := filepath.Join(verifRoot, "evidence")
+		if evidenceDir != "" {
+			dir = evidenceDir
+		}
+		writeJSON(filepath.Join(dir, id+".json"), merged)
+	}
+	return exit
+}
+
+func mergeEvidence(dst, src map[string]interface{}) {
+	num := func(v interface{}) float64 {
+		f, _ := v.(float64)
+		return f
+	}
+	dst["violations"] = num(dst["violations"]) + num(src["violations"])
+	if a, ok := dst["assumptions"].([]interface{}); ok {
+		b, _ := src["assumptions"].([]interface{})
+		dst["assumptions"] = append(a, b...)
+	} else if b, ok := src["assumptions"].([]interface{}); ok {
+		dst["assumptions"] = b
+	}
+	dc, _ := dst["coverage"].(map[string]interface{})
+	sc, _ := src["coverage"].(map[string]interface{})
+	if dc == nil || sc == nil {
+		return
+	}
+	for _, k := range []string{"states", "transitions", "traces_validated_against_impl", "obligations", "discharged", "paths", "solver_queries", "solver_time_s", "load_time_s", "panic_paths"} {
+		dc[k] = num(dc[k]) + num(sc[k])
+	}
+	de, _ := dc["exhaustive"].(bool)
+	se, _ := sc["exhaustive"].(bool)
+	dc["exhaustive"] = de && se
+	for _, k := range []string{"samples", "functions_encoded", "entries", "trusted_base", "inconclusive"} {
+		a, _ := dc[k].([]interface{})
+		b, _ := sc[k].([]interface{})
+		seen := map[string]bool{}
+		var out []interface{}
+		for _, x := range append(a, b...) {
+			if s, ok := x.(string); ok {
+				if seen[s] {
+					continue
+				}
+				seen[s] = true
+			}
+			out = append(out, x)
+		}
+		if out == nil {
+			out = []interface{}{}
+		}
+		dc[k] = out
+	}
+	for _, k := range []string{"bounds", "known_findings_seen"} {
+		a, _ := dc[k].(map[string]interface{})
+		b, _ := sc[k].(map[string]interface{})
+		if a == nil {
+			a = map[string]interface{}{}
+		}
+		for kk, v := range b {
+			if old, ok := a[kk]; ok && k == "known_findings_seen" {
+				a[kk] = num(old) + num(v)
+			} else {
+				a[kk] = v
+			}
+		}
+		dc[k] = a
+	}
 }
